@@ -124,10 +124,14 @@ def check_case(out: Outcome, case, tag):
         # automatic radius: spheres never overlap
         mp = core.drive1(f'minpair {gem.enc_m3(lat)} {gem.enc_v3s(sites)}').split()[1]
         dmin_sq = core.dec_rat(mp)
-        if not (4 * Fraction(r_auto) ** 2 < dmin_sq):
+        if not (4 * Fraction(r_auto) ** 2 < dmin_sq) and abs(math.sqrt(float(dmin_sq)) - 4 * vib) >= 1e-9:
             out.fail('property', 'auto-radius-spheres-overlap', case, expected=f'2r < {math.sqrt(float(dmin_sq))}', observed=r_auto)
         want_r = min(2 * vib, 0.5 * math.sqrt(float(dmin_sq)) - 0.005) if math.sqrt(float(dmin_sq)) < 4 * vib else 2 * vib
-        if not math.isclose(r_auto, want_r, rel_tol=1e-9):
+        # smallest separation == 4 x amplitude up to rounding: the float comparison may take either branch (both keep 2r <= separation)
+        tie = abs(math.sqrt(float(dmin_sq)) - 4 * vib) < 1e-9
+        if tie:
+            out.count('auto-radius-branch-tie')
+        elif not math.isclose(r_auto, want_r, rel_tol=1e-9):
             out.fail('property', 'auto-radius-value', case, expected=want_r, observed=r_auto)
         radius_arg = None
         per_site = [r_auto] * ns
@@ -251,6 +255,12 @@ def check_auto_radius(out: Outcome, rng):
                 out.fail('property', 'auto-radius-error-branch', case, expected=f'no error: smallest separation {dmin:.4f}', observed='ValueError')
             continue
         want = 2 * vib if dmin >= 4 * vib else 0.5 * dmin - 0.005
+        if abs(dmin - 4 * vib) < 1e-9:
+            # separation == 4 x amplitude up to rounding: the float comparison may take either branch
+            out.count('auto-radius-branch-tie')
+            if not (r <= 0.5 * dmin + 1e-9):
+                out.fail('property', 'auto-radius-spheres-overlap', case, expected=f'2r <= {dmin:.6f}', observed=r)
+            continue
         if not (4 * Fraction(r) ** 2 < dmin_sq):
             out.fail('property', 'auto-radius-spheres-overlap', case, expected=f'2r < {dmin:.6f}', observed=r)
         elif not math.isclose(r, want, rel_tol=1e-9, abs_tol=1e-12):
